@@ -2,8 +2,21 @@
    project c h rs = the responses to client c's own requests within the history h;
    filter (keep c) h = client c's requests alone.  Id arguments are unrestricted: they may be
    other clients' version ids, snapshot versions or client ids. *)
-From TSS Require Import Seq proofs.Inv proofs.Agree proofs.NonInterf.
+From TSS Require Import Seq Http proofs.Inv proofs.Agree proofs.NonInterf proofs.UrgencyArith proofs.HttpProps proofs.HttpReach proofs.HttpLib proofs.HttpLib2.
+Open Scope N_scope.
 
 Theorem C09_noninterference : forall k cfg h c, oracle_ok h ->
   project c h (responses k cfg h) = responses k cfg (filter (keep c) h).
 Proof. exact noninterference. Qed.
+
+(* as HTTP clients see it: within ANY HTTP history — other clients' requests, refused and malformed
+   requests, requests without a usable client id interleaved anywhere, with or without an allow-list —
+   the responses to the requests carrying client id c are exactly the responses those requests get
+   when sent alone to a fresh server *)
+Theorem C09_http_noninterference : forall k cfg allow h c, cfg_ok cfg -> horacle_ok h ->
+  hproject c h (hresponses k cfg allow h) = hresponses k cfg allow (filter (hkeep c) h).
+Proof. exact http_noninterference. Qed.
+Example C09_hproject_reading : forall c rq E h r rs,
+  hproject c ((rq, E) :: h) (r :: rs) =
+  if (match rq_cid rq with COk c' => N.eqb c' c | _ => false end) then r :: hproject c h rs else hproject c h rs.
+Proof. reflexivity. Qed.
